@@ -2084,7 +2084,6 @@ class Association(threading.Thread):
                     except Exception as exc:
                         LOGGER.error("Failed to decode the received Identifier dataset")
                         LOGGER.exception(exc)
-                        yield status, None
 
                 yield status, identifier
                 continue
